@@ -54,10 +54,33 @@ def new_interp(prog, poll_budget=1, loop_bound=6):
             res = [(st, Enum('MuxedMessage', 'Drain', 0, ())), (s2, Enum('MuxedMessage', 'Message', 1, (boxed(False),)))]
             if 'serialized_msg' in bd['fields']:
                 s3 = s2.fork()
+                s3.emit('MSGKIND', 'serialized', idterm)
                 res.append((s3, Enum('MuxedMessage', 'Message', 1, (boxed(True),))))
+            st.emit('MSGKIND', 'marker', idterm)
+            s2.emit('MSGKIND', 'plain', idterm)
             return res
         return [(st, Opaque('received', info=idterm))]
     I.hooks['chan_value'] = chan_value
+
+    def late_arrival(I, st, o):
+        # the ports are fed by other threads: an explicit non-blocking read (try_recv) that follows an earlier look at the same port within one poll may find
+        # an item that was not there before. Nothing arrives once the receiver has closed the port (the flush in ActorPortSet::drop).
+        cur = st.objs.get(o.oid)
+        if cur is None or o.oid not in PORTS:
+            return
+        late = I.fresh_bool('late_%s' % o.oid)
+        ns = dict(cur)
+        if o.oid in ('sigq', 'stopq'):
+            cond = z3.And(late, cur['st'] == 0, z3.Not(cur['txdrop']), z3.Not(cur['rxclosed']))
+            ns['st'] = z3.If(cond, z3.BitVecVal(1, 2), cur['st'])
+            ns['val'] = z3.If(cond, z3.BitVec('late_%s_val_%d' % (o.oid, len(st.trace)), objects.ID_BITS), cur['val'])
+            ns['txdrop'] = z3.Or(cur['txdrop'], cond)
+        else:
+            cond = z3.And(late, cur['len'] == 0, z3.Not(cur['closed']), z3.Not(cur['rxdrop']))
+            ns['len'] = z3.If(cond, z3.BitVecVal(1, 8), cur['len'])
+            ns['c0'] = z3.If(cond, z3.BitVec('late_%s_c0_%d' % (o.oid, len(st.trace)), objects.ID_BITS), cur['c0'])
+        st.objs[o.oid] = ns
+    I.hooks['late_arrival'] = late_arrival
 
     # `signal.to_string()` - the text comes from `impl Display for Signal` (read from the source on every run)
     src = open(os.path.join(mirdump.REPO, 'ractor', 'src', 'actor', 'messages.rs')).read()
